@@ -53,6 +53,20 @@ Definition adagrad_step (lb : option V) (gsum : V) (xs gs : list V) : list V * V
   let step := vdiv v1 (vsqrt gsum') in
   (project lb (zipw (fun x g => vsub x (vmul step g)) xs gs), gsum').
 
+(* reset_state(): Adam forgets moments and step counter, Adagrad its accumulated gradient norm; SGD has nothing to forget.
+   The result never depends on the state being reset. *)
+Definition adam_reset (o : adam_state) : adam_state := mkAdam [] [] [] [] 0.
+Definition adagrad_reset (gsum : V) : V := v0.
+Lemma adam_reset_const o1 o2 : adam_reset o1 = adam_reset o2.
+Proof. reflexivity. Qed.
+Lemma adagrad_reset_const g1 g2 : adagrad_reset g1 = adagrad_reset g2.
+Proof. reflexivity. Qed.
+(* after the reset the first Adam step allocates zero moments of the model's size (the branch _total_iterations == 0) *)
+Lemma adam_first_step_after_reset rate decay b1 b2 eps ei nf lb o xs gs :
+  am_prev (snd (adam_step rate decay b1 b2 eps ei nf lb (adam_reset o) xs gs)) = map (fun _ => v0) xs /\
+  atot (snd (adam_step rate decay b1 b2 eps ei nf lb (adam_reset o) xs gs)) = ei.
+Proof. split; reflexivity. Qed.
+
 Theorem sgd_step_above rate decay nfails lb xs gs : Forall (above lb) (sgd_step rate decay nfails lb xs gs).
 Proof. apply project_above. Qed.
 Theorem adam_step_above rate decay b1 b2 eps ei nf lb o xs gs :
